@@ -6,6 +6,7 @@ import random
 from . import common
 from ..gen import value as gvalue
 from ..gen.plan import plan_of
+from ..ref import ocf, avrobin
 from ..ref import names
 
 LEVEL = 'fault_enumeration'
@@ -25,6 +26,31 @@ PICKS = [
                                                  {'name': 'e', 'type': {'type': 'enum', 'name': 'En', 'symbols': ['X', 'Y']}}]},
     {'type': 'record', 'name': 'L', 'fields': [{'name': 'v', 'type': 'string'}, {'name': 'next', 'type': ['null', 'L']}]},
 ]
+
+
+def admissible(steps, failed, base_vals, got):
+    """values of operations that returned Ok are all there, in order; of an operation that returned Err any prefix of its values may be there
+    (an append that fails leaves no trace, a bulk append may have taken some of its values before failing)"""
+    segs, pos = [], 0
+    for i, st in enumerate(steps):
+        n = {'append_value': 1, 'append_value_ref': 1, 'append': 1, 'unvalidated_append_value': 1, 'unvalidated_append_value_ref': 1, 'append_ser': 1}.get(st['o'])
+        if n is None:
+            n = len(st.get('vs', st.get('plans', []))) if st['o'].startswith('extend') else 0
+        segs.append((base_vals[pos:pos + n], i in failed))
+        pos += n
+    if pos != len(base_vals):
+        return True          # the steps do not account for the baseline: not judged
+    reach = {0}
+    for vals, is_failed in segs:
+        nxt = set()
+        for g in reach:
+            for take in (range(len(vals) + 1) if is_failed else [len(vals)]):
+                if g + take <= len(got) and all(avrobin.veq(got[g + t], vals[t]) for t in range(take)):
+                    nxt.add(g + take)
+        reach = nxt
+        if not reach:
+            return False
+    return len(got) in reach
 
 
 def check(run, replay_case=None):
@@ -103,6 +129,42 @@ def check(run, replay_case=None):
         run.count('plans_where_an_error_surfaced', r['errors_surfaced'])
         run.count('plans_all_ok_and_bytes_identical', r['all_ok_and_identical'])
         run.sample({'scenario': c['kind'], 'schema': c['schema'], 'baseline_sink_calls[write,flush]': r['baseline_sink_calls'], 'baseline_bytes': r['baseline_bytes'], 'plans': r['plans']})
+        # transient faults of container histories: when the failing sink call sits exactly at a structural boundary of the file (before
+        # the header, before a block) nothing of the failed piece reached the sink, the writer returned Err, and the history went on with
+        # every later operation Ok -- then no value may be missing at the end (the block partitioning may differ): an Ok after the error
+        # must not hide a loss
+        if r.get('continuations') and r.get('baseline'):
+            bounds, base_vals = {}, None
+            try:
+                node, env = names.parse(c['schema'])
+                pf = ocf.parse(bytes.fromhex(r['baseline']))
+                base_vals = ocf.read_values(pf, node, env)
+                bounds = {0: 'file-start', pf['header_end']: 'first-block-start'}
+                for b in pf['blocks']:
+                    bounds.setdefault(b['payload_end'] + 16, 'block-start')
+            except (ocf.OcfError, names.SchemaError, ValueError, KeyError):       # zstandard has no reference codec here; C04 judges baselines
+                run.count('baselines_the_reference_could_not_read')
+            for k in r['continuations']:
+                run.count('transient_fault_continuations')
+                at = bounds.get(k['sink_len_at_failure'])
+                if at is None:
+                    continue
+                run.count('transient_faults_at_a_structural_boundary')
+                if k['final_equals_a_baseline']:
+                    continue
+                codec = (c['scenario'].get('codec') or {}).get('name', 'null')
+                try:
+                    got = ocf.read_values(ocf.parse(bytes.fromhex(k['final'])), node, env)
+                    why = None if admissible(c['scenario']['steps'], set(k['failed_step_indices']), base_vals, got) else 'values-missing-or-different'
+                except (ocf.OcfError, ValueError, KeyError, avrobin.DecodeError) as ex:
+                    why = 'file-unreadable'
+                if why:
+                    run.violation('ok-after-clean-transient-fault-but-%s at=%s codec=%s' % (why, at, codec),
+                                  'a sink call failed once exactly at %s (nothing of the piece was delivered), the operation returned Err, every later operation returned Ok, '
+                                  'yet the file does not hold the appended values (%s; %d bytes, fault-free %d)' % (at, why, k['final_len'], len(r['baseline']) // 2),
+                                  dict(case, plan=k['plan']), observed=k)
+                else:
+                    run.count('continuations_with_different_block_partition_but_all_values')
         for v in r['violations']:
             run.violation('%s scenario=%s' % (v['sig'], c['kind']), '%s (%d plans); first: %s' % (v['sig'], v['count'], json.dumps(v['first'])[:300]), case, observed=v)
     run.cov['fault_plans_enumerated'] = total
